@@ -302,7 +302,7 @@ theorem sort_assignImplicitTags_of_noneTagged (fields : List RField) (e : Option
     cases ht : p.2.tag <;> simp_all
   simp [this]
 
-/-! ### the resolver: independence of the fuel, totality on acyclic modules -/
+/-! ### the resolver: independence of the fuel, totality on every module -/
 
 theorem collectTags_mono (r1 r2 : Ty → Option (Option Tag)) (alts : List (Option Tag × Ty))
     (h : ∀ a ∈ alts, ∀ x, r1 a.2 = some x → r2 a.2 = some x) :
@@ -336,58 +336,48 @@ theorem collectTags_mono (r1 r2 : Ty → Option (Option Tag)) (alts : List (Opti
 
 /-- one more unit of fuel never changes an answer -/
 theorem resolveTypeTag_succ (env : Env) :
-    ∀ (fuel : Nat) (t : Ty) (x : Option Tag),
-      resolveTypeTag env fuel t = some x → resolveTypeTag env (fuel + 1) t = some x := by
+    ∀ (fuel : Nat) (vis : List String) (t : Ty) (x : Option Tag),
+      resolveTypeTag env fuel vis t = some x → resolveTypeTag env (fuel + 1) vis t = some x := by
   intro fuel
   induction fuel with
-  | zero => intro t x h; simp [resolveTypeTag] at h
+  | zero => intro vis t x h; simp [resolveTypeTag] at h
   | succ f ih =>
-    intro t x h
+    intro vis t x h
     cases t with
     | builtin k => simpa [resolveTypeTag] using h
     | ref n =>
       simp only [resolveTypeTag] at h ⊢
-      cases hl : env.lookup n with
-      | none => simpa [hl] using h
-      | some d =>
-        simp only [hl] at h ⊢
-        cases ht : d.tag with
-        | some t => simpa [ht] using h
-        | none => simp only [ht] at h ⊢; exact ih _ _ h
+      by_cases hv : vis.contains n = true
+      · rw [if_pos hv] at h ⊢; exact h
+      · rw [if_neg hv] at h ⊢
+        cases hl : env.lookup n with
+        | none => simpa [hl] using h
+        | some d =>
+          simp only [hl] at h ⊢
+          cases ht : d.tag with
+          | some t => simpa [ht] using h
+          | none => simp only [ht] at h ⊢; exact ih _ _ _ h
     | choice alts e =>
       simp only [resolveTypeTag] at h ⊢
-      cases hc : collectTags (resolveTypeTag env f) (rootAlts alts e) with
+      cases hc : collectTags (resolveTypeTag env f vis) (rootAlts alts e) with
       | none => simp [hc] at h
       | some y =>
-        rw [collectTags_mono _ _ _ (fun a _ x hx => ih a.2 x hx) y hc]
+        rw [collectTags_mono _ _ _ (fun a _ x hx => ih vis a.2 x hx) y hc]
         simpa [hc] using h
 
 /-- **independence of the fuel**: once the resolver answers, more fuel gives the same answer -/
-theorem resolveTypeTag_mono (env : Env) (f f' : Nat) (hff : f ≤ f') (t : Ty) (x : Option Tag)
-    (h : resolveTypeTag env f t = some x) : resolveTypeTag env f' t = some x := by
+theorem resolveTypeTag_mono (env : Env) (f f' : Nat) (hff : f ≤ f') (vis : List String) (t : Ty)
+    (x : Option Tag) (h : resolveTypeTag env f vis t = some x) :
+    resolveTypeTag env f' vis t = some x := by
   obtain ⟨k, rfl⟩ := Nat.exists_eq_add_of_le hff
   induction k with
   | zero => exact h
-  | succ k ih => exact resolveTypeTag_succ env (f + k) t x (ih (Nat.le_add_right f k))
+  | succ k ih => exact resolveTypeTag_succ env (f + k) vis t x (ih (Nat.le_add_right f k))
 
-mutual
-/-- the largest `rank + 1` of a reference in the type; 0 when there is none -/
-def Ty.refRank (r : String → Nat) : Ty → Nat
-  | .builtin _ => 0
-  | .ref n => r n + 1
-  | .choice alts _ => altsRefRank r alts
-def altsRefRank (r : String → Nat) : List (Option Tag × Ty) → Nat
-  | [] => 0
-  | (_, t) :: rest => max (t.refRank r) (altsRefRank r rest)
-end
-
-/-- **acyclic module**: some rank function decreases along every reference of every definition
-    (`r m < r d.name` for every `m` referenced in the body of `d`) -/
-def Acyclic (env : Env) (r : String → Nat) : Prop := ∀ d ∈ env, d.ty.refRank r ≤ r d.name
-
-/-- fuel that certainly suffices for `t` in a module that is acyclic w.r.t. `r` -/
-def fuelBound (r : String → Nat) (env : Env) (t : Ty) : Nat :=
-  t.depth + t.refRank r * (envDepth env + 1)
+/-- fuel that certainly suffices for `t` with the stack `vis`: the depth of the type plus, for
+    every definition that can still be entered, one more than the deepest definition body -/
+def fuelBound (env : Env) (vis : List String) (t : Ty) : Nat :=
+  t.depth + unvisited env vis * (envDepth env + 1)
 
 theorem Ty.depth_pos (t : Ty) : 1 ≤ t.depth := by
   cases t <;> simp [Ty.depth] <;> omega
@@ -399,17 +389,6 @@ theorem depth_le_altsDepth (alts : List (Option Tag × Ty)) (a : Option Tag × T
   | cons b rest ih =>
     rcases b with ⟨tg, ty⟩
     simp only [altsDepth]
-    rcases List.mem_cons.1 h with rfl | h
-    · exact Nat.le_max_left _ _
-    · exact Nat.le_trans (ih h) (Nat.le_max_right _ _)
-
-theorem refRank_le_altsRefRank (r : String → Nat) (alts : List (Option Tag × Ty))
-    (a : Option Tag × Ty) (h : a ∈ alts) : a.2.refRank r ≤ altsRefRank r alts := by
-  induction alts with
-  | nil => cases h
-  | cons b rest ih =>
-    rcases b with ⟨tg, ty⟩
-    simp only [altsRefRank]
     rcases List.mem_cons.1 h with rfl | h
     · exact Nat.le_max_left _ _
     · exact Nat.le_trans (ih h) (Nat.le_max_right _ _)
@@ -444,47 +423,97 @@ theorem collectTags_isSome (rec : Ty → Option (Option Tag)) (alts : List (Opti
       | none => exact ⟨none, by simp [collectTags, hx]⟩
       | some t => exact ⟨y.map (t :: ·), by simp [collectTags, hx, hy]⟩
 
-/-- **totality on acyclic reference graphs**, with an explicit amount of fuel -/
-theorem resolveTypeTag_total (env : Env) (r : String → Nat) (hac : Acyclic env r) :
-    ∀ (fuel : Nat) (t : Ty), fuelBound r env t ≤ fuel → ∃ x, resolveTypeTag env fuel t = some x := by
+theorem length_filter_le_of_imp {α : Type} (p q : α → Bool) (l : List α)
+    (h : ∀ x, q x = true → p x = true) : (l.filter q).length ≤ (l.filter p).length := by
+  induction l with
+  | nil => simp
+  | cons a rest ih =>
+    simp only [List.filter_cons]
+    cases hq : q a <;> cases hp : p a <;> simp <;> try omega
+    have := h a hq
+    rw [hp] at this
+    cases this
+
+theorem length_filter_lt_of_imp {α : Type} (p q : α → Bool) (l : List α)
+    (h : ∀ x, q x = true → p x = true) (x : α) (hx : x ∈ l) (hpx : p x = true)
+    (hqx : q x = false) : (l.filter q).length < (l.filter p).length := by
+  induction l with
+  | nil => cases hx
+  | cons a rest ih =>
+    have hle := length_filter_le_of_imp p q rest h
+    simp only [List.filter_cons]
+    rcases List.mem_cons.1 hx with rfl | hx'
+    · simp [hpx, hqx]; omega
+    · have := ih hx'
+      cases hq : q a <;> cases hp : p a <;> simp <;> try omega
+      have := h a hq
+      rw [hp] at this
+      cases this
+
+theorem unvisited_imp (vis : List String) (n : String) (d : Def)
+    (h : (!(n :: vis).contains d.name) = true) : (!vis.contains d.name) = true := by
+  rw [List.contains_cons] at h
+  cases hc : vis.contains d.name with
+  | false => rfl
+  | true => rw [hc] at h; simp at h
+
+/-- entering a definition takes it (and its namesakes) out of the count -/
+theorem unvisited_cons_lt (env : Env) (vis : List String) (n : String) (d : Def)
+    (hmem : d ∈ env) (hname : d.name = n) (hv : vis.contains n = false) :
+    unvisited env (n :: vis) < unvisited env vis := by
+  unfold unvisited
+  refine length_filter_lt_of_imp _ _ env (fun x => unvisited_imp vis n x) d hmem ?_ ?_
+  · rw [hname, hv]; rfl
+  · rw [List.contains_cons, hname]; simp
+
+theorem unvisited_le_length (env : Env) (vis : List String) : unvisited env vis ≤ env.length := by
+  unfold unvisited
+  exact List.length_filter_le _ _
+
+/-- **totality**, for every module (cyclic or not), every stack and every type, with an explicit
+    amount of fuel -/
+theorem resolveTypeTag_total (env : Env) :
+    ∀ (fuel : Nat) (vis : List String) (t : Ty), fuelBound env vis t ≤ fuel →
+      ∃ x, resolveTypeTag env fuel vis t = some x := by
   intro fuel
   induction fuel with
   | zero =>
-    intro t h
+    intro vis t h
     have := Ty.depth_pos t
     unfold fuelBound at h; omega
   | succ f ih =>
-    intro t h
+    intro vis t h
     cases t with
     | builtin k => exact ⟨some (defaultTag k), by simp [resolveTypeTag]⟩
     | ref n =>
       simp only [resolveTypeTag]
-      cases hl : env.lookup n with
-      | none => exact ⟨_, rfl⟩
-      | some d =>
-        simp only []
-        cases ht : d.tag with
-        | some t => exact ⟨_, rfl⟩
-        | none =>
+      by_cases hv : vis.contains n = true
+      · exact ⟨none, by rw [if_pos hv]⟩
+      · rw [if_neg hv]
+        cases hl : env.lookup n with
+        | none => exact ⟨_, rfl⟩
+        | some d =>
           simp only []
-          obtain ⟨hmem, hname⟩ := Env.lookup_some env n d hl
-          apply ih
-          have h1 := depth_le_envDepth env d hmem
-          have h2 : d.ty.refRank r ≤ r n := hname ▸ hac d hmem
-          have h3 := Nat.mul_le_mul_right (envDepth env + 1) h2
-          simp only [fuelBound, Ty.depth, Ty.refRank, Nat.add_mul, Nat.one_mul] at h ⊢
-          omega
+          cases ht : d.tag with
+          | some t => exact ⟨_, rfl⟩
+          | none =>
+            simp only []
+            obtain ⟨hmem, hname⟩ := Env.lookup_some env n d hl
+            apply ih
+            have h1 := depth_le_envDepth env d hmem
+            have h2 := unvisited_cons_lt env vis n d hmem hname (by simpa using hv)
+            have h3 := Nat.mul_le_mul_right (envDepth env + 1) (Nat.succ_le_of_lt h2)
+            simp only [fuelBound, Ty.depth, Nat.succ_eq_add_one, Nat.add_mul, Nat.one_mul] at h h3 ⊢
+            omega
     | choice alts e =>
       simp only [resolveTypeTag]
-      have : ∃ y, collectTags (resolveTypeTag env f) (rootAlts alts e) = some y := by
+      have : ∃ y, collectTags (resolveTypeTag env f vis) (rootAlts alts e) = some y := by
         apply collectTags_isSome
         intro a ha
         have hmem : a ∈ alts := List.mem_of_mem_take ha
         apply ih
         have h1 := depth_le_altsDepth alts a hmem
-        have h2 := refRank_le_altsRefRank r alts a hmem
-        have h3 := Nat.mul_le_mul_right (envDepth env + 1) h2
-        simp only [fuelBound, Ty.depth, Ty.refRank] at h ⊢
+        simp only [fuelBound, Ty.depth] at h ⊢
         omega
       obtain ⟨y, hy⟩ := this
       rw [hy]
@@ -492,30 +521,138 @@ theorem resolveTypeTag_total (env : Env) (r : String → Nat) (hac : Acyclic env
       | none => exact ⟨_, rfl⟩
       | some ts => exact ⟨_, rfl⟩
 
+/-- the fuel the driver uses suffices: for every module and every type -/
+theorem defaultFuel_sufficient (env : Env) (t : Ty) :
+    ∃ x, resolveTypeTag env (defaultFuel env t) [] t = some x := by
+  apply resolveTypeTag_total env
+  have h := Nat.mul_le_mul_right (envDepth env + 1)
+    (Nat.le_succ_of_le (unvisited_le_length env []))
+  unfold fuelBound defaultFuel
+  simp only [Nat.succ_eq_add_one] at h
+  omega
+
+/-- a reference back to a name on the stack has no tag -/
+theorem resolveTypeTag_visiting (env : Env) (fuel : Nat) (vis : List String) (n : String)
+    (h : n ∈ vis) : resolveTypeTag env (fuel + 1) vis (.ref n) = some none := by
+  simp [resolveTypeTag, h]
+
+/-! ### the repair changes nothing on acyclic modules -/
+
+/-- the resolver as it was before the repair (no stack): plain recursion, which on a reference
+    cycle that is followed never ends (every amount of fuel is exhausted).  Specification side,
+    not a mirror of current code. -/
+def resolveTypeTagUnrepaired (env : Env) : Nat → Ty → Option (Option Tag)
+  | 0, _ => none
+  | _ + 1, .builtin k => some (some (defaultTag k))
+  | fuel + 1, .ref name =>
+    match env.lookup name with
+    | none => some none
+    | some d =>
+      match d.tag with
+      | some t => some (some t)
+      | none => resolveTypeTagUnrepaired env fuel d.ty
+  | fuel + 1, .choice alts extAfter =>
+    match collectTags (resolveTypeTagUnrepaired env fuel) (rootAlts alts extAfter) with
+    | none => none
+    | some none => some none
+    | some (some ts) => some (minTag ts)
+
 mutual
-theorem Ty.refRank_le (r : String → Nat) (B : Nat) (hr : ∀ n, r n ≤ B) :
-    ∀ t : Ty, t.refRank r ≤ B + 1
-  | .builtin _ => by simp [Ty.refRank]
-  | .ref n => by simp only [Ty.refRank]; have := hr n; omega
-  | .choice alts _ => by simp only [Ty.refRank]; exact altsRefRank_le r B hr alts
-theorem altsRefRank_le (r : String → Nat) (B : Nat) (hr : ∀ n, r n ≤ B) :
-    ∀ alts : List (Option Tag × Ty), altsRefRank r alts ≤ B + 1
-  | [] => by simp [altsRefRank]
-  | (_, t) :: rest => by
-    simp only [altsRefRank]
-    exact Nat.max_le.2 ⟨Ty.refRank_le r B hr t, altsRefRank_le r B hr rest⟩
+/-- the largest `rank + 1` of a reference in the type; 0 when there is none -/
+def Ty.refRank (r : String → Nat) : Ty → Nat
+  | .builtin _ => 0
+  | .ref n => r n + 1
+  | .choice alts _ => altsRefRank r alts
+def altsRefRank (r : String → Nat) : List (Option Tag × Ty) → Nat
+  | [] => 0
+  | (_, t) :: rest => max (t.refRank r) (altsRefRank r rest)
 end
 
-/-- the fuel the driver uses suffices whenever the ranks stay below the number of definitions
-    (an acyclic module of `n` definitions always has such a rank function: the length of the
-    longest reference chain starting at the definition) -/
-theorem defaultFuel_sufficient (env : Env) (r : String → Nat) (hac : Acyclic env r)
-    (hr : ∀ n, r n ≤ env.length) (t : Ty) :
-    ∃ x, resolveTypeTag env (defaultFuel env t) t = some x := by
-  apply resolveTypeTag_total env r hac
-  have h := Nat.mul_le_mul_right (envDepth env + 1) (Ty.refRank_le r env.length hr t)
-  unfold fuelBound defaultFuel
-  omega
+/-- **acyclic module**: some rank function decreases along every reference of every definition
+    (`r m < r d.name` for every `m` referenced in the body of `d`) -/
+def Acyclic (env : Env) (r : String → Nat) : Prop := ∀ d ∈ env, d.ty.refRank r ≤ r d.name
+
+theorem refRank_le_altsRefRank (r : String → Nat) (alts : List (Option Tag × Ty))
+    (a : Option Tag × Ty) (h : a ∈ alts) : a.2.refRank r ≤ altsRefRank r alts := by
+  induction alts with
+  | nil => cases h
+  | cons b rest ih =>
+    rcases b with ⟨tg, ty⟩
+    simp only [altsRefRank]
+    rcases List.mem_cons.1 h with rfl | h
+    · exact Nat.le_max_left _ _
+    · exact Nat.le_trans (ih h) (Nat.le_max_right _ _)
+
+theorem collectTags_congr (r1 r2 : Ty → Option (Option Tag)) (alts : List (Option Tag × Ty))
+    (h : ∀ a ∈ alts, r1 a.2 = r2 a.2) : collectTags r1 alts = collectTags r2 alts := by
+  induction alts with
+  | nil => rfl
+  | cons a rest ih =>
+    have ih' := ih (fun b hb => h b (List.mem_cons_of_mem _ hb))
+    rcases a with ⟨tg, ty⟩
+    cases tg with
+    | some t => simp only [collectTags, ih']
+    | none =>
+      have h1 : r1 ty = r2 ty := h (none, ty) (by simp)
+      simp only [collectTags, h1, ih']
+
+/-- on an acyclic module the stack is never hit: as long as every name on the stack ranks above
+    every reference of the type, the repaired resolver computes, with the same fuel, exactly what
+    the resolver without a stack computed -/
+theorem resolveTypeTag_eq_unrepaired (env : Env) (r : String → Nat) (hac : Acyclic env r) :
+    ∀ (fuel : Nat) (vis : List String) (t : Ty), (∀ n ∈ vis, t.refRank r ≤ r n) →
+      resolveTypeTag env fuel vis t = resolveTypeTagUnrepaired env fuel t := by
+  intro fuel
+  induction fuel with
+  | zero => intro vis t _; rfl
+  | succ f ih =>
+    intro vis t hv
+    cases t with
+    | builtin k => rfl
+    | ref m =>
+      have hm : vis.contains m = false := by
+        cases hc : vis.contains m with
+        | false => rfl
+        | true =>
+          have hmem : m ∈ vis := by simpa using hc
+          have := hv m hmem
+          simp only [Ty.refRank] at this
+          omega
+      simp only [resolveTypeTag, resolveTypeTagUnrepaired, hm]
+      cases hl : env.lookup m with
+      | none => rfl
+      | some d =>
+        simp only []
+        cases ht : d.tag with
+        | some t => rfl
+        | none =>
+          simp only []
+          obtain ⟨hmem, hname⟩ := Env.lookup_some env m d hl
+          apply ih
+          intro n hn
+          have h2 : d.ty.refRank r ≤ r m := hname ▸ hac d hmem
+          rcases List.mem_cons.1 hn with rfl | hn'
+          · exact h2
+          · have := hv n hn'
+            simp only [Ty.refRank] at this
+            omega
+    | choice alts e =>
+      simp only [resolveTypeTag, resolveTypeTagUnrepaired]
+      have hc : collectTags (resolveTypeTag env f vis) (rootAlts alts e) =
+          collectTags (resolveTypeTagUnrepaired env f) (rootAlts alts e) := by
+        apply collectTags_congr
+        intro a ha
+        have hmem : a ∈ alts := List.mem_of_mem_take ha
+        apply ih
+        intro n hn
+        have h1 := refRank_le_altsRefRank r alts a hmem
+        have := hv n hn
+        simp only [Ty.refRank] at this
+        omega
+      rw [hc]
+      cases collectTags (resolveTypeTagUnrepaired env f) (rootAlts alts e) with
+      | none => rfl
+      | some y => cases y <;> rfl
 
 /-! ### the walker never panics on what stage 1 + the attribute parser let through -/
 
@@ -653,75 +790,68 @@ theorem toRField_spec (env : Env) (fuel : Nat) (f : Field) (rf : RField)
   obtain ⟨tt, htt, rfl⟩ := h
   exact ⟨rfl, rfl, rfl, rfl, htt⟩
 
+/-- stage 1 finds the type tag of every component (`Some` or `None`): the resolver returns -/
+theorem rustTypeTag_isSome (env : Env) (f : Field) :
+    ∃ tt, rustTypeTag env (defaultFuel env f.ty) f = some tt := by
+  unfold rustTypeTag
+  cases f.ty with
+  | builtin k => exact ⟨_, rfl⟩
+  | ref n => exact defaultFuel_sufficient env (.ref n)
+  | choice alts e =>
+    cases f.tag with
+    | some t => exact ⟨_, rfl⟩
+    | none => exact defaultFuel_sufficient env (.choice alts e)
+
+theorem allSome_isSome {α : Type} (l : List (Option α)) (h : ∀ x ∈ l, ∃ a, x = some a) :
+    ∃ r, allSome l = some r := by
+  induction l with
+  | nil => exact ⟨[], rfl⟩
+  | cons x rest ih =>
+    obtain ⟨a, rfl⟩ := h x (by simp)
+    obtain ⟨r, hr⟩ := ih (fun y hy => h y (List.mem_cons_of_mem _ hy))
+    exact ⟨a :: r, by simp [allSome, hr]⟩
+
+/-- **stage 1 always terminates**: the pipeline answers for every module, cyclic or not -/
+theorem emit_isSome (env : Env) (o : EncodingOrdering) (c : Components) :
+    ∃ r, emit env o c = some r := by
+  unfold emit
+  have : ∃ rf, allSome (c.fields.map fun f => toRField env (defaultFuel env f.ty) f) = some rf := by
+    apply allSome_isSome
+    intro x hx
+    obtain ⟨f, _, rfl⟩ := List.mem_map.1 hx
+    obtain ⟨tt, htt⟩ := rustTypeTag_isSome env f
+    exact ⟨{ name := f.name, tag := f.tag, typeTag := tt, kind := rkindOf f.ty,
+             presence := f.presence }, by simp [toRField, htt]⟩
+  obtain ⟨rf, hrf⟩ := this
+  rw [hrf]
+  simp only []
+  split
+  · exact ⟨_, rfl⟩
+  · split <;> exact ⟨_, rfl⟩
+
 /-- **the real pipeline never panics**, except on an extension marker in an empty component list -/
 theorem emit_ne_panic (env : Env) (o : EncodingOrdering) (c : Components)
     (h : c.fields ≠ [] ∨ c.markers = []) : emit env o c ≠ some .panic := by
   unfold emit
-  by_cases h1 : (!stage1Terminates env c.fields) = true
-  · simp [h1]
-  · rw [if_neg h1]
-    cases hrf : allSome (c.fields.map fun f => toRField env (defaultFuel env f.ty) f) with
-    | none => simp
-    | some rfields =>
-      simp only []
-      have hmap := allSome_spec _ _ hrf
-      have hlen : rfields.length = c.fields.length := by
-        have := congrArg List.length hmap; simpa using this.symm
-      by_cases h2 : ((extensionAfter c.markers).isSome && rfields.isEmpty) = true
-      · exfalso
-        simp only [Bool.and_eq_true, List.isEmpty_iff] at h2
-        rcases h with h | h
-        · have : c.fields.length = 0 := by rw [← hlen, h2.2]; rfl
-          exact h (List.eq_nil_of_length_eq_zero this)
-        · rw [h] at h2; simp [extensionAfter] at h2
-      · rw [if_neg h2]
-        by_cases h3 : (rfields.any fun f => f.kind == .complex && f.typeTag.isNone) = true
-        · simp [h3]
-        · rw [if_neg h3]
-          have hall : AllTypeTagged rfields := by
-            intro rf hrfm
-            obtain ⟨i, hi, rfl⟩ := List.getElem_of_mem hrfm
-            have hi' : i < c.fields.length := hlen ▸ hi
-            have hget : toRField env (defaultFuel env c.fields[i].ty) c.fields[i]
-                = some rfields[i] := by
-              have := congrArg (fun l => l[i]?) hmap
-              simpa [hi, hi'] using this
-            obtain ⟨_, _, hk, _, htt⟩ := toRField_spec _ _ _ _ hget
-            by_cases hkc : rfields[i].kind = .complex
-            · have h3' : ∀ x ∈ rfields, x.kind = .complex → ¬ x.typeTag = none := by
-                simpa using h3
-              have := h3' rfields[i] (List.getElem_mem hi) hkc
-              cases htg : rfields[i].typeTag with
-              | none => exact absurd htg this
-              | some t => rfl
-            · exact rustTypeTag_of_not_complex _ _ _ _ htt (by rw [← hk]; exact hkc)
-          obtain ⟨em, hem, _⟩ := writeConstraints_ok o rfields (extensionAfter c.markers) hall
-          simp [hem]
-
-/-- what a successful run of the pipeline went through -/
-theorem emit_ok (env : Env) (o : EncodingOrdering) (c : Components) (em : Emitted)
-    (h : emit env o c = some (.ok em)) :
-    ∃ rfields, (c.fields.map fun f => toRField env (defaultFuel env f.ty) f) = rfields.map some ∧
-      AllTypeTagged rfields ∧
-      writeConstraints o rfields (extensionAfter c.markers) = .ok em := by
-  unfold emit at h
-  by_cases h1 : (!stage1Terminates env c.fields) = true
-  · simp [h1] at h
-  · rw [if_neg h1] at h
-    cases hrf : allSome (c.fields.map fun f => toRField env (defaultFuel env f.ty) f) with
-    | none => simp [hrf] at h
-    | some rfields =>
-      simp only [hrf] at h
-      have hmap := allSome_spec _ _ hrf
-      have hlen : rfields.length = c.fields.length := by
-        have := congrArg List.length hmap; simpa using this.symm
-      by_cases h2 : ((extensionAfter c.markers).isSome && rfields.isEmpty) = true
-      · simp [h2] at h
-      · rw [if_neg h2] at h
-        by_cases h3 : (rfields.any fun f => f.kind == .complex && f.typeTag.isNone) = true
-        · simp [h3] at h
-        · rw [if_neg h3] at h
-          refine ⟨rfields, hmap, ?_, by simpa using h⟩
+  cases hrf : allSome (c.fields.map fun f => toRField env (defaultFuel env f.ty) f) with
+  | none => simp
+  | some rfields =>
+    simp only []
+    have hmap := allSome_spec _ _ hrf
+    have hlen : rfields.length = c.fields.length := by
+      have := congrArg List.length hmap; simpa using this.symm
+    by_cases h2 : ((extensionAfter c.markers).isSome && rfields.isEmpty) = true
+    · exfalso
+      simp only [Bool.and_eq_true, List.isEmpty_iff] at h2
+      rcases h with h | h
+      · have : c.fields.length = 0 := by rw [← hlen, h2.2]; rfl
+        exact h (List.eq_nil_of_length_eq_zero this)
+      · rw [h] at h2; simp [extensionAfter] at h2
+    · rw [if_neg h2]
+      by_cases h3 : (rfields.any fun f => f.kind == .complex && f.typeTag.isNone) = true
+      · simp [h3]
+      · rw [if_neg h3]
+        have hall : AllTypeTagged rfields := by
           intro rf hrfm
           obtain ⟨i, hi, rfl⟩ := List.getElem_of_mem hrfm
           have hi' : i < c.fields.length := hlen ▸ hi
@@ -738,6 +868,46 @@ theorem emit_ok (env : Env) (o : EncodingOrdering) (c : Components) (em : Emitte
             | none => exact absurd htg this
             | some t => rfl
           · exact rustTypeTag_of_not_complex _ _ _ _ htt (by rw [← hk]; exact hkc)
+        obtain ⟨em, hem, _⟩ := writeConstraints_ok o rfields (extensionAfter c.markers) hall
+        simp [hem]
+
+/-- what a successful run of the pipeline went through -/
+theorem emit_ok (env : Env) (o : EncodingOrdering) (c : Components) (em : Emitted)
+    (h : emit env o c = some (.ok em)) :
+    ∃ rfields, (c.fields.map fun f => toRField env (defaultFuel env f.ty) f) = rfields.map some ∧
+      AllTypeTagged rfields ∧
+      writeConstraints o rfields (extensionAfter c.markers) = .ok em := by
+  unfold emit at h
+  cases hrf : allSome (c.fields.map fun f => toRField env (defaultFuel env f.ty) f) with
+  | none => simp [hrf] at h
+  | some rfields =>
+    simp only [hrf] at h
+    have hmap := allSome_spec _ _ hrf
+    have hlen : rfields.length = c.fields.length := by
+      have := congrArg List.length hmap; simpa using this.symm
+    by_cases h2 : ((extensionAfter c.markers).isSome && rfields.isEmpty) = true
+    · simp [h2] at h
+    · rw [if_neg h2] at h
+      by_cases h3 : (rfields.any fun f => f.kind == .complex && f.typeTag.isNone) = true
+      · simp [h3] at h
+      · rw [if_neg h3] at h
+        refine ⟨rfields, hmap, ?_, by simpa using h⟩
+        intro rf hrfm
+        obtain ⟨i, hi, rfl⟩ := List.getElem_of_mem hrfm
+        have hi' : i < c.fields.length := hlen ▸ hi
+        have hget : toRField env (defaultFuel env c.fields[i].ty) c.fields[i]
+            = some rfields[i] := by
+          have := congrArg (fun l => l[i]?) hmap
+          simpa [hi, hi'] using this
+        obtain ⟨_, _, hk, _, htt⟩ := toRField_spec _ _ _ _ hget
+        by_cases hkc : rfields[i].kind = .complex
+        · have h3' : ∀ x ∈ rfields, x.kind = .complex → ¬ x.typeTag = none := by
+            simpa using h3
+          have := h3' rfields[i] (List.getElem_mem hi) hkc
+          cases htg : rfields[i].typeTag with
+          | none => exact absurd htg this
+          | some t => rfl
+        · exact rustTypeTag_of_not_complex _ _ _ _ htt (by rw [← hk]; exact hkc)
 
 /-- with at most one marker that is not in front of the first component, the flag the generator
     sorts by is the is-extension flag of the text -/
@@ -785,22 +955,19 @@ theorem emit_order_perm (env : Env) (o : EncodingOrdering) (c : Components) (em 
       obtain ⟨em', hem', _⟩ := writeConstraints_ok .keep rfields (extensionAfter c.markers) hall
       refine ⟨em', ?_⟩
       unfold emit at h ⊢
-      by_cases h1 : (!stage1Terminates env c.fields) = true
-      · simp [h1] at h
-      · rw [if_neg h1] at h ⊢
-        cases hrf : allSome (c.fields.map fun f => toRField env (defaultFuel env f.ty) f) with
-        | none => simp [hrf] at h
-        | some rf' =>
-          have e1 := allSome_spec _ _ hrf
-          have : rf' = rfields := map_some_inj _ _ (e1.symm.trans hmap)
-          subst this
-          simp only [hrf] at h ⊢
-          by_cases h2 : ((extensionAfter c.markers).isSome && rf'.isEmpty) = true
-          · simp [h2] at h
-          · rw [if_neg h2] at h ⊢
-            by_cases h3 : (rf'.any fun f => f.kind == .complex && f.typeTag.isNone) = true
-            · simp [h3] at h
-            · rw [if_neg h3]; rw [hem']
+      cases hrf : allSome (c.fields.map fun f => toRField env (defaultFuel env f.ty) f) with
+      | none => simp [hrf] at h
+      | some rf' =>
+        have e1 := allSome_spec _ _ hrf
+        have : rf' = rfields := map_some_inj _ _ (e1.symm.trans hmap)
+        subst this
+        simp only [hrf] at h ⊢
+        by_cases h2 : ((extensionAfter c.markers).isSome && rf'.isEmpty) = true
+        · simp [h2] at h
+        · rw [if_neg h2] at h ⊢
+          by_cases h3 : (rf'.any fun f => f.kind == .complex && f.typeTag.isNone) = true
+          · simp [h3] at h
+          · rw [if_neg h3]; rw [hem']
     obtain ⟨em', hem'⟩ := hseq
     have hk := emit_keep_order env c em' hem'
     obtain ⟨rfields, hmap, hall, hw⟩ := emit_ok env .sort c em h
@@ -828,7 +995,11 @@ def x680Universal : Builtin → Nat
 /-- the tag X.680 gives an untagged type, automatic tagging included: an untagged CHOICE none of
     whose alternatives carries a tag has its alternatives tagged `[0] [1] …` (X.680 29.2 with
     25.7), so the smallest tag of its root is `[0]`; otherwise the smallest root-alternative tag
-    (X.691 20.1 orders an untagged CHOICE component by it) -/
+    (X.691 20.1 orders an untagged CHOICE component by it).  A type whose tag would have to be
+    known to determine itself (`A ::= B`, `B ::= A`; `R ::= CHOICE { x [3] INTEGER, y R }`) has no
+    tag in X.680 (it is not legal ASN.1: no finite value, resp. alternatives without distinct
+    tags); here the recursion runs out of fuel and `specTag` reads that as "no tag" (`.join`),
+    which is also what the repaired resolver answers. -/
 def specTypeTag (env : Env) : Nat → Ty → Option (Option Tag)
   | 0, _ => none
   | _ + 1, .builtin k => some (some (Tag.universal (x680Universal k)))
